@@ -95,7 +95,26 @@ func c20Fallback(r *Run, db *SiteDB, ltq *FuncInfo) {
 	norm := func(e ast.Node) string { return strings.ReplaceAll(r.L.str(e), " ", "") }
 	n := 0
 	var los *Site
+	// the table may be consulted by localToQid itself or by a private helper it calls (one that
+	// the pinned tree does not have: unlikelyQid(di))
+	hosts := []*FuncInfo{ltq}
 	for _, s := range db.ByFunc[ltq] {
+		if s.Call == nil {
+			continue
+		}
+		if tf := r.L.FuncOf(callee(info, s.Call)); tf != nil && tf != ltq && tf.Pkg == ltq.Pkg && tf.Decl.Body != nil && !tf.Obj.Exported() && !pinnedFuncs[tf.Key] {
+			hosts = append(hosts, tf)
+		}
+	}
+	var sites []*Site
+	hostOf := map[*Site]*FuncInfo{}
+	for _, h := range hosts {
+		for _, s := range db.ByFunc[h] {
+			sites = append(sites, s)
+			hostOf[s] = h
+		}
+	}
+	for _, s := range sites {
 		if s.Callee != "sync.Map.Load" && s.Callee != "sync.Map.LoadOrStore" && s.Callee != "sync.Map.Store" {
 			continue
 		}
@@ -128,9 +147,22 @@ func c20Fallback(r *Run, db *SiteDB, ltq *FuncInfo) {
 		okRet := false
 		if as, ok := r.L.parent(los.Call).(*ast.AssignStmt); ok && len(as.Lhs) == 2 {
 			v := norm(as.Lhs[0])
-			for _, ex := range db.Exits[ltq] {
-				if ex.Ret != nil && ex.Ret.Pos() > los.Call.Pos() && strings.HasPrefix(norm(ex.Ret.Results[0]), v+".(") {
+			host := hostOf[los]
+			for _, ex := range db.Exits[host] {
+				if ex.Ret != nil && len(ex.Ret.Results) > 0 && ex.Ret.Pos() > los.Call.Pos() && strings.HasPrefix(norm(ex.Ret.Results[0]), v+".(") {
 					okRet = true
+				}
+			}
+			if host != ltq && okRet {
+				// ... and localToQid hands on what the helper returns
+				okRet = false
+				for _, ex := range db.Exits[ltq] {
+					if ex.Ret == nil || len(ex.Ret.Results) == 0 {
+						continue
+					}
+					if c, isCall := unparen(ex.Ret.Results[0]).(*ast.CallExpr); isCall && r.L.FuncOf(callee(info, c)) == host {
+						okRet = true
+					}
 				}
 			}
 		}
